@@ -11,7 +11,7 @@ theorem lg_sum_map_add {α} (l : List α) (f g : α → Rat) :
   | nil => simp [Rat.zero_add]
   | cons a l ih => simp only [List.map_cons, List.sum_cons, ih]; grind
 
-theorem sum_map_mul_left {α} (l : List α) (k : Rat) (f : α → Rat) :
+theorem lg_sum_map_mul_left {α} (l : List α) (k : Rat) (f : α → Rat) :
     (l.map fun a => k * f a).sum = k * (l.map f).sum := by
   induction l with
   | nil => simp
@@ -96,7 +96,7 @@ theorem exchange (ry : List (Row × Rat)) (n : Nat) (x : Vec) :
     rw [this, lg_sum_map_zero]; simp
   | cons q qs ih =>
     simp only [List.map_cons, List.sum_cons, ih]
-    rw [← sum_map_mul_left, ← lg_sum_map_add]
+    rw [← lg_sum_map_mul_left, ← lg_sum_map_add]
     congr 1
     apply List.map_congr_left
     intro j _
@@ -180,7 +180,7 @@ theorem lagrangian_bound_aux (P : Problem) (y : List Rat) (hwf : P.WFCols) (hy :
     have : (fun j => reducedCost P y j * x j + colDot P.rows y j * x j)
         = (fun j => (-1) * (P.c.getD j 0 * x j)) := by
       funext j; unfold reducedCost; grind
-    rw [this, sum_map_mul_left]; grind
+    rw [this, lg_sum_map_mul_left]; grind
   unfold lagrangianUB
   rw [h4, ← h2]
   grind
